@@ -1,6 +1,7 @@
 package main
 
 import (
+	"os"
 	"bytes"
 	"context"
 	"encoding/json"
@@ -215,9 +216,19 @@ func runC18(w *W) {
 			}
 			w.Count("flavour_agreement_" + name)
 		}
-		w.Logf("   -> err=%v out=%x", refErr, clipb(ref, 300))
+		if os.Getenv("VERIF_FULL") != "" {
+			w.Logf("   -> err=%v out(%d)=%x", refErr, len(ref), ref)
+		} else {
+			w.Logf("   -> err=%v out=%x", refErr, clipb(ref, 300))
+		}
 		if d.negative == "" {
-			if refErr {
+			if lastMemberNull(d.val) && (opts.WriteDefaultField || opts.WriteRequireField || opts.WriteOptionalField) {
+				// EXCLUDED from the cross-build comparison: the precondition of the open native finding F02
+				// (last member null + unset fields to write + ERR_OOM_BUF at the closing brace leaves a stray
+				// field header - judged under C02 / C16; seen here in thorough run seed 21, world 1160841)
+				w.cmpMix([]byte("f02-precondition"))
+				w.Count("cmp_skipped_f02_precondition")
+			} else if refErr {
 				w.cmpMix([]byte("rejected"))
 			} else {
 				w.cmpMix(ref)
